@@ -423,7 +423,7 @@ pub fn run(ctx: &Ctx) -> Report {
         }
     }
     // ---- P+1: rows of the shared table
-    let mut pp1_pairs: Vec<(u64, f64)> = vec![(16, 660.), (33, 660.), (40, 1080.), (50, 1920.), (100, 3e3), (105, 5.04e3), (180, 7.7e3), (120, 7.7e3), (350, 13.2e3), (600, 20e3)];
+    let mut pp1_pairs: Vec<(u64, f64)> = vec![(16, 660.), (33, 660.), (40, 1080.), (50, 1920.), (100, 3e3), (105, 5.04e3), (180, 7.7e3), (120, 7.7e3), (350, 13.2e3), (600, 20e3), (1000, 33e3)];
     if !ctx.quick() {
         pp1_pairs.extend([(1000, 53e3), (1500, 81e3), (3600, 181e3), (2000, 323e3), (10000, 554e3), (5000, 1.37e6)]);
     }
